@@ -925,6 +925,9 @@ def fallback_probe(job, S, V, ex, res, real_outcome, known, replay_dir, budget=1
         r, m = ex.model_of(*cons, *excl, t)
         if r == z3.sat:
             models.append(m)
+    # ... and, per abandoned path, inputs pulled towards pseudo-random values (the solver's own models are as degenerate as the
+    # path allows: equal or evenly spaced values, on which e.g. a median and a mean coincide)
+    models += _scattered_models(V, list(V.assumptions) + cons + excl, [pc for pc in list(blind_pcs)[:path_budget // 4] if pc], getattr(job, "name", ""))
     seen = set()
     found = 0
     for m in models:
@@ -949,6 +952,38 @@ def fallback_probe(job, S, V, ex, res, real_outcome, known, replay_dir, budget=1
             found += 1
             if found >= 3:
                 break
+
+
+def _scattered_models(V, hard, pcs, salt, per_path=2, timeout_ms=1500):
+    """models of each path condition in which the declared numeric inputs are pulled (soft constraints, z3 Optimize) towards
+    pseudo-random values of grid G inside their declared ranges; deterministic in the job name"""
+    import random
+    import zlib
+    rng = random.Random(zlib.crc32(salt.encode()))
+    out = []
+    terms = [(t, lo, hi) for t, lo, hi in V.terms if z3.is_real(t) or z3.is_int(t)]
+    if not terms:
+        return out
+    for pc in pcs:
+        for _ in range(per_path):
+            opt = z3.Optimize()
+            opt.set("timeout", timeout_ms)
+            for h in hard:
+                opt.add(h)
+            for c in pc:
+                opt.add(c)
+            for t, lo, hi in terms:
+                lo_, hi_ = max(float(lo), -64.0), min(float(hi), 64.0)
+                if lo_ > hi_:
+                    lo_, hi_ = float(lo), float(hi)
+                x = Fraction(round(rng.uniform(lo_, hi_) * 8), 8)
+                opt.add_soft(t == (z3.IntVal(int(x)) if z3.is_int(t) else rv(x)))
+            try:
+                if opt.check() == z3.sat:
+                    out.append(opt.model())
+            except z3.Z3Exception:
+                pass
+    return out
 
 
 def concrete_truth(m, f):
